@@ -55,3 +55,33 @@ fn c05_list_leaf() {
     let c = l.clone();
     assert!(c.len() == n && c.head().copied() == l.head().copied(), "C05: clone is observationally equal");
 }
+
+// @obl props=C05,C06,C19 tier=quick kind=harness-contract mem=2 est=20
+// @fns List::iter Iter::next
+// @clause STEP CONTRACT of the history iterator, loop-free and therefore for lists of every length: for an iterator standing on ANY node (element, cached length and presence of a successor symbolic), next() returns a reference to exactly that node's element and leaves the iterator standing on exactly that node's successor (None if there is none); an exhausted iterator returns None and stays exhausted; List::iter() stands on the head node (None for the empty list). The successor's own fields are outside next()'s footprint, so one successor node is a complete case split. With the Verus view (link_view(Some(n)) == [n.elem] ++ link_view(n.next)) this is the induction step of "iteration yields the view, newest first, each entry once"; the induction itself and filter/count (A1) are not machine-checked, which is why c05_twice_leaf stays labelled bounded.
+#[kani::proof]
+fn c05_iter_step() {
+    let (e0, e1): (u64, u64) = (kani::any(), kani::any());
+    let (len0, len1): (usize, usize) = (kani::any(), kani::any());
+    let has_next: bool = kani::any();
+    let n1: Arc<Node<u64>> = Arc::new(Node { elem: e1, next: None, len: len1 });
+    let n0: Node<u64> = Node { elem: e0, next: if has_next { Some(n1.clone()) } else { None }, len: len0 };
+    kani::cover!(has_next);
+    kani::cover!(!has_next);
+    // (a) live iterator
+    let mut it = Iter { next: Some(&n0) };
+    let x = it.next();
+    assert!(match x { Some(r) => std::ptr::eq(r, &n0.elem) && *r == e0, None => false }, "C05: next() yields the element of the node the iterator stands on");
+    match it.next {
+        Some(p) => assert!(has_next && std::ptr::eq(p, &*n1), "C05: next() advances to exactly the successor node"),
+        None => assert!(!has_next, "C05: next() ends iteration only at the last node"),
+    }
+    // (b) exhausted iterator
+    let mut done: Iter<u64> = Iter { next: None };
+    assert!(done.next().is_none() && done.next.is_none(), "C05: an exhausted iterator stays exhausted");
+    // (c) iter() starts at the head
+    let l = List { head: Some(n1.clone()) };
+    assert!(match l.iter().next { Some(p) => std::ptr::eq(p, &*n1), None => false }, "C05: iter() stands on the head node");
+    let empty: List<u64> = List { head: None };
+    assert!(empty.iter().next.is_none(), "C05: iter() of the empty list is exhausted");
+}
